@@ -4,14 +4,16 @@ from genharness import *
 from gencheck import *
 
 
-def ser_jobs(tree, rng, per_class, modes=(False,)):
+def ser_jobs(tree, rng, per_class, modes=(False,), C=None, name=''):
     vg = ValueGen(tree, rng, free_optionals=True)
     jobs = []
     for cls, body in classes_of(tree):
         for k in range(per_class):
             try:
                 v = vg.obj(cls, body)
-            except Exception:
+            except Exception as ex:
+                if C is not None:
+                    C.harness_failure('value-generation', f"{name} {cls}: {type(ex).__name__}: {ex}")
                 continue
             jobs.append(dict(op='ser', cls=cls, value=v, san=(modes[k % len(modes)])))
     return jobs
@@ -19,7 +21,7 @@ def ser_jobs(tree, rng, per_class, modes=(False,)):
 
 def run(tier):
     C = Check('C02', tier)
-    C.prove('Properties/C02.v', bridges={'Model/Recover.v': []})
+    C.prove('Properties/C02.v', bridges={'Model/Recover.v': [], 'Properties/C02R.v': []})
     C.cov['tie']['protocol_code_generator + generated code'] = ('correspondence-only: the real generator is run on every specification tree and the generated '
                                                                'serializers are executed; the reference semantics is Model/Elab.v + Model/Ser.v (deep embedding)')
     quick = tier == 'quick'
@@ -28,7 +30,7 @@ def run(tier):
     per = 6 if quick else 10
     entries = []
     for t in trees:
-        jobs = ser_jobs(t['tree'], rng, per, modes=(False, False, True))
+        jobs = ser_jobs(t['tree'], rng, per, modes=(False, False, True), C=C, name=t['name'])
         for cls, _ in classes_of(t['tree']):
             if cls.endswith('Packet'):
                 jobs.append(dict(op='packet', cls=cls))
@@ -37,6 +39,8 @@ def run(tier):
     variants = [dict(name=e['name'] + '+explicit-defaults', tree=explicit_defaults(e['tree'], rng), jobs=e['jobs'], want_sources=True) for e in entries]
     run_entries(C, runner, entries + variants)
     recover_stream(C, entries + variants, 'c02')
+    render_stream(C, entries + variants, 'c02')
+    C.cov['tie']['generated serialize methods (semantics)'] = ('way 1 for generated code: tools/py2stmt.py parses every generated serialize method from the SOURCE TEXT (generic, fail-closed) into the statement language of Model/PyStmt.v; Model/RenderCheck.v checks inside Coq that it equals render_serialize (elab tree); Properties/C02R.v proves that running those statements IS Model/Ser.v, for all objects and writer states')
     C.cov['tie']['generated classes (structure)'] = ('translation validation: tools/gen2instr.py recovers the instruction lists of every generated serialize / deserialize / __init__ from the SOURCE TEXT (fail-closed) and Model/Recover.v compares them with elab of the same tree (vm_compute): the theorems about the elaborated instruction lists apply to the code as emitted, for all objects and bytes')
     # ---- accepted? importable? (a valid tree must be accepted and importable)
     for e in entries + variants:
